@@ -53,9 +53,21 @@ type poolConf struct {
 	Ammo core.Provider `config:"ammo"`
 }
 
-func newProvider(file string) (core.Provider, error) {
+func newProvider(file string) (core.Provider, error) { return newProviderPL(file, "") }
+
+// newProviderPL: pl = "<passes>,<limit>" sets the provider options `passes` / `limit` (0 = unlimited)
+func newProviderPL(file, pl string) (core.Provider, error) {
 	var pc poolConf
-	err := config.Decode(map[string]any{"ammo": map[string]any{"type": "http/scenario", "file": file}}, &pc)
+	m := map[string]any{"type": "http/scenario", "file": file}
+	if f := strings.Split(pl, ","); len(f) == 2 {
+		if v, err := strconv.Atoi(f[0]); err == nil {
+			m["passes"] = v
+		}
+		if v, err := strconv.Atoi(f[1]); err == nil {
+			m["limit"] = v
+		}
+	}
+	err := config.Decode(map[string]any{"ammo": m}, &pc)
 	return pc.Ammo, err
 }
 
@@ -166,7 +178,7 @@ func runProv(kv map[string]string) (obs string) {
 	file := fmt.Sprintf("c15-prov-%d.yaml", fileSeq.Add(1))
 	writeFile(file, provYAML(kv))
 	defer func() { _ = memFs.Remove(file) }()
-	p, err := newProvider(file)
+	p, err := newProviderPL(file, kv["pl"])
 	if err != nil {
 		return errClass(err)
 	}
